@@ -38,3 +38,18 @@ Theorem c03_frame_roundtrip :
   N.of_nat (length file) < 2 ^ 32 ->
   decrypt4 sha256 sha512 hmac256 kdf outer_dec decompress file els = Ok (cfg, atts, d_inner_key d, xml).
 Proof. exact frame_roundtrip_small_file. Qed.
+
+(* ---------------- the XML object mapping (models xml/XmlDump.v, xml/XmlParse.v) ----------------
+   For every database content in the explicit boolean domain [wf_content] (any tree depth, any
+   number of entries, history items, fields, custom data, icons, binaries, deleted objects) and
+   every inner key stream: parsing the events the writer emits returns the content.  [wf_content]
+   lists exactly the places where the real save/open is not the identity (blank texts, blank map
+   keys, empty field values, Value::Bytes, non-UTF-8 protected values, tags with separators, stamp
+   names Expires/UsageCount, empty icon/binary bodies); it is checked against the real crate by the
+   xml-domain stream (wf_content c = true => open (save c) = c on every generated case). *)
+From KP Require Import XmlTypes XmlDump XmlParse XmlSpec XmlRoundTrip.
+Theorem c03_xml_roundtrip :
+  forall (gzip : bytes -> bytes) (gunzip : bytes -> option bytes) (c : content) (ks : bytes),
+  wf_content gzip gunzip c = true -> bytes_ok ks = true ->
+  parse_events gunzip (dump_events gzip c ks) ks = Ok c.
+Proof. exact parse_dump_roundtrip. Qed.
